@@ -67,3 +67,55 @@ Proof.
   rewrite IH. reflexivity.
 Qed.
 Print Assumptions C15_nothing_after_close.
+
+(* ---------- teardown during a slow lifecycle callback (Model/Teardown.v) ---------- *)
+From Turn Require Import C15TdCheck.
+From Turn Require Import Teardown TeardownP TeardownQuiet C18Check TeardownMacro.
+Open Scope N_scope.
+
+(* for EVERY interleaving of the remaining steps of the calls, of any number of Close calls and of timer expiries: if, when
+   the allocation is still open, every AddPermission / AddChannelBind call has done all its publishing (it is inside a
+   lifecycle callback or further, or has returned; closers have not started), then once every call has returned and the
+   allocation is closed no published permission and no published channel remains - whatever the step orders *)
+Theorem C15_quiet_close_leaves_nothing : forall ordp ordc s th sched, Teardown.closed s = false -> Forall quiet th ->
+  let (s', th') := wrun ordp ordc sched (s, th) in
+  Forall (fun t => t = TDone) th' -> Teardown.closed s' = true -> pmap s' = [] /\ cmap s' = [].
+Proof. exact quiet_close_leaves_nothing. Qed.
+Print Assumptions C15_quiet_close_leaves_nothing.
+
+(* "inside a callback" means "nothing left to publish" for the step orders that pass callbacks_last - a condition
+   evaluated on the orders the translator extracts from the source on every run (Check/C15TdCheck.run) *)
+Theorem C15_parked_calls_are_quiet : forall ordp ordc, callbacks_last ordp ordc = true -> forall a pid cid l,
+  quiet (TRun a (from_first is_cb ordp) [] pid cid l) /\
+  quiet (TRun a (from_first is_cb ordp) (after_first is_cadd ordc) pid cid l) /\
+  quiet (TRun a [] (from_first is_cb ordc) pid cid l).
+Proof. exact callbacks_last_quiet. Qed.
+Print Assumptions C15_parked_calls_are_quiet.
+
+(* history level: on every forced schedule (macro operations of C18Check: run a thread until it is inside a callback,
+   blocked or done; let the timers fire) of any initial threads, the model's own observations (a) are accepted by the
+   correspondence runner and (b) satisfy the checked predicate's clause about what remains published: if every adder had
+   reached a callback or returned when the first closer ran, then once all have returned and the allocation is closed,
+   the permission and channel tables are empty (and the lock is free) *)
+Theorem C15_slow_callback_maps_on_every_model_trace : forall ordp ordc,
+  orders_ok ordp ordc = true -> callbacks_last ordp ordc = true -> forall threads mops, forallb initial threads = true ->
+  maps_holds threads (mtrace ordp ordc ((Teardown.init, threads), map (fun _ => SNew) threads) mops) = true /\
+  agree_from ordp ordc ((Teardown.init, threads), map (fun _ => SNew) threads)
+             (mtrace ordp ordc ((Teardown.init, threads), map (fun _ => SNew) threads) mops) = true.
+Proof.
+  intros ordp ordc Ho Hc threads mops Hi. split.
+  - exact (maps_holds_model ordp ordc Ho Hc threads mops Hi).
+  - apply (agree_mtrace ordp ordc Ho). cbn [fst]. apply init_inv. exact Hi.
+Qed.
+Print Assumptions C15_slow_callback_maps_on_every_model_trace.
+
+(* non-vacuity: the orders of the repaired code pass both conditions; "callback first" does not; and a concrete schedule
+   (AddPermission parks in its callback, Close runs to the end, the callback returns) meets the premise *)
+Example C15_orders_of_the_code : orders_ok ordp_fixed ordc_code = true /\ callbacks_last ordp_fixed ordc_code = true /\
+  callbacks_last [PCallback; PArm; PPublish] ordc_code = false.
+Proof. repeat split; reflexivity. Qed.
+Example C15_slow_callback_example :
+  let tr := mtrace ordp_fixed ordc_code ((Teardown.init, [TAddPerm 1; TClose0]), [SNew; SNew]) [MRun 0; MRun 1; MRun 0] in
+  premise [TAddPerm 1; TClose0] tr = true /\ maps_left tr = true /\ pairs_left tr = true /\
+  map (fun p => o_status (snd p)) tr = [[SParked; SNew]; [SParked; SDone]; [SDone; SDone]].
+Proof. vm_compute. repeat split; reflexivity. Qed.
